@@ -46,7 +46,7 @@ def lex(text):
         return tc, t[:20]               # kept: trafficSignID values such as "274" are integers lexically
     if _RE_DEC.fullmatch(t):
         v = Fraction(t)
-        return ("dec+" if v > 0 else ("dec0" if v == 0 else "dec-")), ""
+        return ("dec+" if v > 0 else ("dec0" if v == 0 else "dec-")), (t if len(t) <= 8 else "")   # "274.1" is a sign id
     if _RE_EXP.fullmatch(t):
         return "exp", ""
     low = t.lower().lstrip("+-")
@@ -134,6 +134,7 @@ NUM = {"zero": 0.0, "one": 1.0, "tenth": 0.1, "half": 0.5, "ordinary": 12.345678
 GEO_REF = {"None": None, "utm": "+proj=utm +zone=32 +ellps=WGS84"}
 AUTHOR, AFFILIATION, SOURCE = "crv-author", "crv-affiliation", "crv-source"
 COMPONENTS = ["obstacle", "planning", "lanelet", "sign", "light", "intersection", "header", "numbers"]
+RUNS = ["obstacle", "small", "numbers"]      # TLC runs: "small" = planning, lanelet, sign, light, intersection, header
 _TABLE_FILE = os.path.join(tlc.OUT, "gen", "codec_tables.json")
 _tables = None
 
@@ -994,19 +995,19 @@ def _parallel(jobs):
 
 
 def model_check(ctx, schema_only=False):
-    # the contract is not vacuous: the implementation models of two repaired defects must break Impl => Contract
-    _parallel([lambda: ctx.mc_expect("MC_Codec", "DEV_Codec_1.cfg", "LawImplConforms"),       # XML writer without <horn>
-               lambda: ctx.mc_expect("MC_Codec", "DEV_Codec_2.cfg", "LawImplConforms")])      # reader stops at first unset
-    comps = COMPONENTS + ["mixed", "mixedx"]
-    _parallel([(lambda c=c: ctx.mc("MC_Codec", "MC_Codec_%s.cfg" % c, coverage=False,
-                                   extra=("-seed", str(ctx.seed + 1)))) for c in comps])
+    # DEV_*: the contract is not vacuous - the implementation models of two repaired defects break Impl => Contract
+    jobs = [lambda: ctx.mc_expect("MC_Codec", "DEV_Codec_1.cfg", "LawImplConforms", workers=1),    # XML writer without <horn>
+            lambda: ctx.mc_expect("MC_Codec", "DEV_Codec_2.cfg", "LawImplConforms", workers=1)]    # reader stops at first unset
+    jobs += [(lambda c=c: ctx.mc("MC_Codec", "MC_Codec_%s.cfg" % c, coverage=False, workers=8,
+                                 extra=("-seed", str(ctx.seed + 1)))) for c in RUNS + ["mixed", "mixedx"]]
+    _parallel(jobs)
 
 
 def gen_cases(ctx, fmt, quota=False):
     """All cases of the per-component GEN runs the spec declares expressible in `fmt`, plus the seeded mixed draw."""
     shutil.rmtree(os.path.join(tlc.OUT, "codec_tmp"), ignore_errors=True)       # leftovers of an interrupted run
     suffix = "_t" if ctx.thorough else ""
-    cfgs = ["GEN_Codec_%s.cfg" % c for c in COMPONENTS if c != "numbers"] + ["GEN_Codec_numbers%s.cfg" % suffix,
+    cfgs = ["GEN_Codec_%s.cfg" % c for c in RUNS if c != "numbers"] + ["GEN_Codec_numbers%s.cfg" % suffix,
                                                                             "GEN_Codec_mixed%s%s.cfg" % ("x" if fmt == "xml" else "", suffix)]
     outs = _parallel([(lambda cfg=cfg: tlc.generate("MC_Codec", cfg, "%s_%s" % (ctx.prop, cfg.replace(".cfg", "")),
                                                     extra=("-seed", str(ctx.seed + 1)))) for cfg in cfgs])
